@@ -465,6 +465,8 @@ class OpMixin(object):
     def __rmul__(self, other): return self * other
     def __rsub__(self, other): return self._rbinary_op(np.subtract, other)
     def __rdiv__(self, other): return self._rbinary_op(np.true_divide, other)
+    def __rtruediv__(self, other): return self._rbinary_op(np.true_divide, other)
+    def __rfloordiv__(self, other): return self._rbinary_op(np.floor_divide, other)
     def __rpow__(self, other): return self._rbinary_op(np.power, other)
 
 
